@@ -36,6 +36,7 @@ def run(ctx):
                                  extra={"MaxSteps": 14})
     # the background protocol: write stall, flush task, level task, close (spec/background)
     _background.model_check(ctx)
+    _background.model_check_failures(ctx)
     _background.teeth(ctx)
     _background.replay_schedules(ctx)
     _background.stall_stress(ctx)
